@@ -25,6 +25,13 @@ VARIANTS = [
     V("strong-order-on-solve-path", EH, "        y_prime = y0 + g_prod\n", "        y_prime = y0 + g_prod * (2 * self.strong_order if self.strong_order < 1 else 1.0)\n", rule="R17"),
     # default Brownian shape: diagonal noise takes the noise size from the wrong axis
     V("diagonal-noise-size-from-batch", SDEINT, "            noise_sizes.append(shape[1])", "            noise_sizes.append(shape[0])", rule="R17.4"),
+    # the driver around the steps treats one declaration differently
+    V("driver-additive-skips-clip", CORE + "base_solver.py", "                    next_t = ts[-1]\n                if self.adaptive:",
+      "                    next_t = ts[-1] if self.sde.noise_type != NOISE_TYPES.additive else next_t\n                if self.adaptive:", rule="R17.5"),
+    V("driver-scalar-output-at-step-end", CORE + "base_solver.py", "            ys.append(interp.linear_interp(t0=prev_t, y0=prev_y, t1=curr_t, y1=curr_y, t=out_t))",
+      "            ys.append(curr_y if self.sde.noise_type == NOISE_TYPES.scalar else interp.linear_interp(t0=prev_t, y0=prev_y, t1=curr_t, y1=curr_y, t=out_t))", rule="R17.5"),
+    V("twin-driver-branch-same-arms", CORE + "base_solver.py", "            ys.append(interp.linear_interp(t0=prev_t, y0=prev_y, t1=curr_t, y1=curr_y, t=out_t))",
+      "            if self.sde.noise_type == NOISE_TYPES.additive:\n                out_y = interp.linear_interp(t0=prev_t, y0=prev_y, t1=curr_t, y1=curr_y, t=out_t)\n            else:\n                out_y = interp.linear_interp(prev_t, prev_y, curr_t, curr_y, out_t)\n            ys.append(out_y)", expect="silent"),
     # twins
     V("twin-prod-diagonal-commuted", BASE, "    def prod_diagonal(self, g, v):\n        return g * v", "    def prod_diagonal(self, g, v):\n        return v * g", expect="silent"),
     V("twin-mvp-temporary", MISC, "return torch.bmm(m, v.unsqueeze(-1)).squeeze(dim=-1)", "col = v.unsqueeze(-1)\n    out = torch.bmm(m, col)\n    return out.squeeze(dim=-1)", expect="silent"),
